@@ -142,7 +142,7 @@ func newStubTargets() []stubTarget {
 }
 
 func c07(c *wk.Ctx) {
-	c.Note("rule", "every input runs in the worker under accounting: no panic / fatal error; runtime TotalAlloc delta <= 64 MiB + 64*len(input) + 8 KiB per byte of signature / IDL text in the input (the combinator parsers turn over 2-4.4 KiB of garbage per text byte, linearly); process CPU time <= 5 s (a watchdog ends a case that is still running after 12 s of CPU or 12 GiB of heap and reports it under the same key). Inputs (<= 64 KiB): random bytes; valid encodings with each length / count / signature-length field replaced by 0xffffffff, 0x80000000, 0x7fffffff, caps and caps+1, 2^24, len+1; valid IDL text cut anywhere and ending in the beginning of a comment; dynamic values with hostile signatures ([v], [()], deep nestings, long names, struct definitions whose names and types disagree in number). Entry points: Message.Read, value.NewValue, signature TypeReader.Read and encoding.Decoder.Decode for random signatures, ReadMetaObject, ReadObjectReference, ReadServiceInfo, ReadCapabilityMap, generated stub Receive (freshly generated Probe stub and the checked-in generic object stub: every action, argument payloads mutated), signature.Parse, idl.ParsePackage. Evaluations count inputs; distinct non-trivial = distinct (entry point, input class, length bucket, outcome).")
+	c.Note("rule", "every input runs in the worker under accounting: no panic / fatal error; runtime TotalAlloc delta <= 64 MiB + 64*len(input) + 8 KiB per byte of signature / IDL text in the input (the combinator parsers turn over 2-4.4 KiB of garbage per text byte, linearly); process CPU time <= 5 s (a watchdog ends a case that is still running after 12 s of CPU or 12 GiB of heap and reports it under the same key). Inputs (<= 64 KiB): random bytes; valid encodings with each length / count / signature-length field replaced by 0xffffffff, 0x80000000, 0x7fffffff, caps and caps+1, 2^24, len+1; valid IDL text cut anywhere and ending in the beginning of a comment; dynamic values with hostile signatures ([v], [()], deep nestings, maps nested 8-64 times under fixed-size keys or in key position, long names, struct definitions whose names and types disagree in number). Entry points: Message.Read, value.NewValue, signature TypeReader.Read and encoding.Decoder.Decode for random signatures, ReadMetaObject, ReadObjectReference, ReadServiceInfo, ReadCapabilityMap, generated stub Receive (freshly generated Probe stub and the checked-in generic object stub: every action, argument payloads mutated), signature.Parse, idl.ParsePackage. Evaluations count inputs; distinct non-trivial = distinct (entry point, input class, length bucket, outcome).")
 	c.Guard(guardHeap, guardCPU)
 	scal := append(append([]rc.Kind{}, rc.AllScalars...), rc.Dyn)
 	inner := rc.GenOpts{Depth: 2, Width: 3, ComparableKeys: true, MaxAnonNest: 3}
@@ -251,7 +251,13 @@ func c07(c *wk.Ctx) {
 		var sig string
 		class := ""
 		d := 1 + rng.Intn(c.Pick(3000, 20000))
-		switch i % 9 {
+		switch i % 11 {
+		case 9: // maps nested in value position under fixed-size keys
+			n := 8 + d%56
+			sig, class = strings.Repeat("{i", n)+"{ii}"+strings.Repeat("}", n), "nested-maps"
+		case 10: // maps nested in key position
+			n := 8 + d%56
+			sig, class = strings.Repeat("{", n)+"{ii}"+strings.Repeat("i}", n), "nested-maps"
 		case 8:
 			t := rc.GenType(rng, rc.GenOpts{Depth: 2 + rng.Intn(3), Width: 1 + rng.Intn(4), Scalars: c09Scalars, MinTuple: 1})
 			for k := 0; k < 20 && !strings.Contains(t.Sig(), "<"); k++ {
